@@ -1,14 +1,16 @@
-(* C11 — complex-valued fields reproduce real-valued runs.  Model: model/Yee.v; lemmas: proofs/Yee_real.v *)
+(* C11 — complex-valued fields reproduce real-valued runs.  Model: model/Yee.v; lemmas: proofs/Yee_real.v, proofs/Yee_real_pml.v *)
 From Coq Require Import List Arith.
-From FV Require Import base.Scalar base.Cplx model.Yee proofs.Yee_steps proofs.Yee_real.
+From FV Require Import base.Scalar base.Cplx model.Yee proofs.Yee_steps proofs.Yee_real proofs.Yee_real_pml.
 Import ListNotations.
 
-(* PARTIAL in scope: PML-free scenes.  With ghost factors of zero imaginary part (no non-zero Bloch phase), real source
-   injections and real initial fields, the imaginary part of E and H is zero after any number of steps; the real parts then
-   evolve by the very same definitions, i.e. they are the real-valued run. *)
-Theorem C11_complex_stays_real_partial : forall (K : Fld) (sc : scene K), pmls K sc = [] ->
+(* For every scene of the pair model (any grid, widths, masks, iso/diagonal lossy materials, ANY list of CPML layers) whose ghost
+   factors have zero imaginary part (no non-zero Bloch phase) and whose source injections are real: if E, H and the psi accumulators
+   start real (imaginary part exactly 0), they are real after any number of steps.  The real parts therefore evolve by the very same
+   definitions applied to (x, 0) pairs, i.e. they are the real-valued run. *)
+Theorem C11_complex_stays_real : forall (K : Fld) (sc : scene K),
   (realC K (hix K sc) /\ realC K (hiy K sc) /\ realC K (hiz K sc) /\ realC K (lox K sc) /\ realC K (loy K sc) /\ realC K (loz K sc)) ->
   (forall t, realV K (injE K sc t) /\ realV K (injH K sc t)) ->
-  forall n s, realV K (fE s) -> realV K (fH s) -> realV K (fE (iterR K sc n s)) /\ realV K (fH (iterR K sc n s)).
-Proof. intros K sc Hp G I n. exact (forward_real_n K sc Hp G I n). Qed.
-Print Assumptions C11_complex_stays_real_partial.
+  forall n s, realV K (fE s) -> realV K (fH s) -> Forall (realP K) (psiE s) -> Forall (realP K) (psiH s) ->
+  realV K (fE (iterR K sc n s)) /\ realV K (fH (iterR K sc n s)).
+Proof. intros K sc G I n. exact (forward_real_pml_n K sc G I n). Qed.
+Print Assumptions C11_complex_stays_real.
